@@ -360,7 +360,16 @@ static void create_queues(void) {
 		switch (n->kind) {
 		case QK_GLOBAL: n->q = dispatch_get_global_queue(n->gprio, n->overcommit ? 2 /* DISPATCH_QUEUE_OVERCOMMIT */ : 0); break;
 		case QK_MAIN: n->q = dispatch_get_main_queue(); break;
-		case QK_WORKLOOP: n->q = (dispatch_queue_t)dispatch_workloop_create(n->label); break;
+		case QK_WORKLOOP:
+			// half of the workloops are created inactive, configured and activated at once (submitting to an inactive
+			// workloop is undefined, unlike queues: workloop_private.h)
+			if (g_chance(1, 2)) {
+				dispatch_workloop_t w = dispatch_workloop_create_inactive(n->label);
+				if (g_chance(1, 2)) dispatch_workloop_set_autorelease_frequency(w, g_chance(1, 2) ? DISPATCH_AUTORELEASE_FREQUENCY_WORK_ITEM : DISPATCH_AUTORELEASE_FREQUENCY_NEVER);
+				dispatch_activate((dispatch_queue_t)w);
+				n->q = (dispatch_queue_t)w;
+			} else n->q = (dispatch_queue_t)dispatch_workloop_create(n->label);
+			break;
 		default: {
 			dispatch_queue_attr_t a = n->kind == QK_CONC ? DISPATCH_QUEUE_CONCURRENT : DISPATCH_QUEUE_SERIAL;
 			if (n->inactive) a = dispatch_queue_attr_make_initially_inactive(a);
@@ -422,6 +431,8 @@ static void check_specific(qitem *it) {
 		if (!cur || strcmp(cur, Q[it->q].label))
 			h_viol("current-label", "item %d (op #%d %s on q%d): the current queue's label is '%s', not '%s'", it->id, it->op_idx, opnames[it->opkind], it->q, cur ? cur : "(null)", Q[it->q].label);
 	}
+	// a barrier item of a concurrent queue and any item of a serial queue run "as a barrier" on their queue
+	if ((Q[it->q].kind == QK_SERIAL || (Q[it->q].kind == QK_CONC && it->barrier)) && it->opkind != OP_APPLY) { dispatch_assert_queue_barrier(Q[it->q].q); RES.counters[QC_ASSERTS]++; }
 	for (int q = it->q; q >= 0; q = Q[q].target) {
 		dispatch_assert_queue(Q[q].q); RES.counters[QC_ASSERTS]++;
 		for (int k = 0; k < 4; k++) if (Q[q].spec[k] && dispatch_queue_get_specific(Q[q].q, &keys[k]) != Q[q].spec[k])
